@@ -36,6 +36,17 @@ CLAIMED.update({
    note="Trusted: structural observer; solo runs of the same build as reference (metamorphic, no expected values). Only the one-thread configuration is explored: instances on different threads share no state by construction."),
 })
 
+CLAIMED.update({
+ "C17": dict(engine="cli-sim", category="fault_enumeration", ref="DESIGN.md 4.7",
+   technique="deterministic simulation of whole process runs of the real binary: generated program/library files, working directory, path spelling, layout and file-level faults, one injected failing form; oracle = marker model + in-process evaluation of the same text",
+   text="Each run launches the real ruschm binary (built from /repo) with an empty environment and a hash seed supplied through an LD_PRELOAD shim, over a generated world: program of 3-25 items that display marker-bracketed values, sibling libraries that print at load time, decoy libraries in unrelated working directories, four working directories x four path spellings, LF/CRLF, with or without final newline; two thirds of the runs contain exactly one failing form (run-time, syntax, import), a sixth a file-level fault (missing, directory, empty, invalid UTF-8, truncated). Checked: marker sequence up to the failing form and nothing after, exit status, one diagnostic line PATH[:L:C] MESSAGE on stderr, byte-identical stdout / same message / same location as the in-process evaluation.",
+   note="Trusted: marker model, ANSI stripping, the in-process run as rendering reference. Write errors on stdout and signals are not injected."),
+ "C18": dict(engine="repl-sim", category="fault_enumeration", ref="DESIGN.md 4.8",
+   technique="deterministic simulation of REPL sessions: a simulated user types generated lines into the real binary over a pipe in lock-step (FIONREAD + /proc/PID/syscall), several line splittings per sequence, EOF injected after a random line; oracle = nesting-depth judge + per-line output attribution + in-process transcript",
+   text="Sessions of 3-20 submissions typed under three different line splittings each (breaks only inside forms, blank/whitespace/comment-only lines, trailing comments with parentheses, literals containing parentheses and semicolons in a third of the cases), one line at a time, waiting after each line until the child has consumed it and blocks in read(0). After a line that completes nothing, nothing may be printed; after a completing line stderr must carry exactly the message and stdout everything up to the last newline; the final transcript equals the in-process evaluation of the submissions in order; transcripts agree across splittings; EOF after any line ends the session cleanly.",
+   note="Trusted: lock-step synchronisation through /proc (exit 2 if unreadable), the generator's depth count as completeness judge, in-process evaluation as transcript reference. Polling uses real sleeps only to wait; no outcome depends on timing."),
+})
+
 NOT_APPLICABLE = {
  "C01": "pure function of the program text: no schedule, interleaving, clock, stream or fault for a simulator to own (DESIGN.md 8)",
  "C02": "stack and heap use of one deterministic run as a function of (program, N): resource monitoring of a single execution, nothing scheduled, no fault whose timing matters (DESIGN.md 8)",
@@ -49,7 +60,7 @@ NOT_APPLICABLE = {
  "C16": "pure function of the value (DESIGN.md 8)",
 }
 
-PENDING = {k: "check under construction in this session (claimed by DESIGN.md; will move to checks when its engine is built)" for k in ["C07","C17","C18"]}
+PENDING = {k: "check under construction in this session (claimed by DESIGN.md; will move to checks when its engine is built)" for k in ["C07"]}
 
 def main():
     pending = dict(PENDING)
